@@ -3,3 +3,597 @@ From Coq Require Import List Arith ZArith NArith Bool Lia.
 From SV Require Import C16.Model.
 Import ListNotations.
 Open Scope N_scope.
+
+Ltac case_if := match goal with |- context [if ?c then _ else _] => destruct c eqn:? end.
+
+(* ------------------------------------------------------------------ *)
+(** * Keys *)
+
+Lemma key_eqb_eq a b : key_eqb a b = true <-> a = b.
+Proof.
+  unfold key_eqb. destruct a as [a1 a2], b as [b1 b2]; cbn [fst snd].
+  rewrite andb_true_iff, !N.eqb_eq. split; [intros [-> ->]; reflexivity|intros E; inversion E; auto].
+Qed.
+
+Lemma key_eqb_refl a : key_eqb a a = true.
+Proof. apply key_eqb_eq; reflexivity. Qed.
+
+Lemma key_eqb_neq a b : key_eqb a b = false <-> a <> b.
+Proof.
+  split.
+  - intros H E. apply key_eqb_eq in E. congruence.
+  - intros H. destruct (key_eqb a b) eqn:E; [|reflexivity]. apply key_eqb_eq in E. contradiction.
+Qed.
+
+Lemma mem_In k l : mem k l = true <-> In k l.
+Proof.
+  induction l as [|x t IH]; cbn [mem In]; [split; [discriminate|tauto]|].
+  rewrite orb_true_iff, key_eqb_eq, IH. split; intros [H|H]; auto.
+Qed.
+
+Lemma mem_app k l1 l2 : mem k (l1 ++ l2) = mem k l1 || mem k l2.
+Proof. induction l1 as [|x t IH]; cbn [mem app]; [reflexivity|]. rewrite IH, orb_assoc. reflexivity. Qed.
+
+(* ------------------------------------------------------------------ *)
+(** * The forward count map *)
+
+Definition keys_of (l : list (key * N)) : list key := map fst l.
+
+Lemma fwd_get_notin k l : ~ In k (keys_of l) -> fwd_get k l = 0.
+Proof.
+  induction l as [|[k' n] t IH]; cbn [fwd_get keys_of map fst In]; [reflexivity|].
+  intros H. destruct (key_eqb k k') eqn:E.
+  - apply key_eqb_eq in E. subst. tauto.
+  - apply IH. tauto.
+Qed.
+
+Lemma fwd_get_incr k k' l :
+  fwd_get k (fwd_incr k' l) = fwd_get k l + (if key_eqb k k' then 1 else 0).
+Proof.
+  induction l as [|[k2 n] t IH]; cbn [fwd_incr fwd_get].
+  - destruct (key_eqb k k'); reflexivity.
+  - destruct (key_eqb k' k2) eqn:E2; cbn [fwd_get].
+    + apply key_eqb_eq in E2. subst k2. destruct (key_eqb k k'); lia.
+    + destruct (key_eqb k k2) eqn:E3.
+      * assert (key_eqb k k' = false).
+        { apply key_eqb_neq. intros ->. apply key_eqb_eq in E3. subst. rewrite key_eqb_refl in E2. discriminate. }
+        rewrite H. lia.
+      * apply IH.
+Qed.
+
+Lemma keys_incr k l :
+  keys_of (fwd_incr k l) = keys_of l \/ (keys_of (fwd_incr k l) = keys_of l ++ [k] /\ ~ In k (keys_of l)).
+Proof.
+  induction l as [|[k2 n] t IH]; cbn [fwd_incr keys_of map fst].
+  - right. split; [reflexivity|intros []].
+  - destruct (key_eqb k k2) eqn:E; cbn [keys_of map fst].
+    + left; reflexivity.
+    + destruct IH as [IH|[IH Hn]]; fold (keys_of t) in *; fold (keys_of (fwd_incr k t)) in *.
+      * left. rewrite IH. reflexivity.
+      * right. split; [rewrite IH; reflexivity|]. cbn [In]. intros [H|H]; [|tauto].
+        subst. rewrite key_eqb_refl in E. discriminate.
+Qed.
+
+Lemma NoDup_snoc {A} (l : list A) x : NoDup l -> ~ In x l -> NoDup (l ++ [x]).
+Proof.
+  induction l as [|y t IH]; cbn; intros H Hn.
+  - constructor; [intros []|constructor].
+  - inversion H; subst. constructor.
+    + rewrite in_app_iff. cbn. intros [Hi|[->|[]]]; tauto.
+    + apply IH; tauto.
+Qed.
+
+Lemma nodup_incr k l : NoDup (keys_of l) -> NoDup (keys_of (fwd_incr k l)).
+Proof.
+  intros H. destruct (keys_incr k l) as [E|[E Hn]]; rewrite E; [assumption|].
+  apply NoDup_snoc; auto.
+Qed.
+
+Lemma pos_incr k l : (forall e, In e l -> 0 < snd e) -> forall e, In e (fwd_incr k l) -> 0 < snd e.
+Proof.
+  induction l as [|[k2 n] t IH]; cbn [fwd_incr]; intros H e He.
+  - destruct He as [<-|[]]. cbn. lia.
+  - destruct (key_eqb k k2); cbn [In] in He.
+    + destruct He as [<-|He]; [cbn; lia|]. apply H. right; assumption.
+    + destruct He as [<-|He]; [apply H; left; reflexivity|].
+      apply IH; auto. intros e' He'. apply H. right; assumption.
+Qed.
+
+Lemma keys_decr_incl k l : forall x, In x (keys_of (fwd_decr k l)) -> In x (keys_of l).
+Proof.
+  induction l as [|[k2 n] t IH]; cbn [fwd_decr keys_of map fst]; [tauto|].
+  intros x. destruct (key_eqb k k2).
+  - destruct (n - 1 =? 0); cbn [keys_of map fst In]; tauto.
+  - cbn [keys_of map fst In]. intros [H|H]; [auto|]. right. apply IH. exact H.
+Qed.
+
+Lemma nodup_decr k l : NoDup (keys_of l) -> NoDup (keys_of (fwd_decr k l)).
+Proof.
+  induction l as [|[k2 n] t IH]; cbn [fwd_decr keys_of map fst]; [auto|].
+  intros H. inversion H as [|? ? Hn Ht]; subst. destruct (key_eqb k k2).
+  - destruct (n - 1 =? 0); cbn [keys_of map fst]; [assumption|constructor; assumption].
+  - cbn [keys_of map fst]. constructor; [|apply IH; assumption].
+    intros Hi. apply Hn. eapply keys_decr_incl; eauto.
+Qed.
+
+Lemma pos_decr k l : (forall e, In e l -> 0 < snd e) -> forall e, In e (fwd_decr k l) -> 0 < snd e.
+Proof.
+  induction l as [|[k2 n] t IH]; cbn [fwd_decr]; intros H e He; [destruct He|].
+  destruct (key_eqb k k2).
+  - destruct (n - 1 =? 0) eqn:Z.
+    + apply H. right; assumption.
+    + destruct He as [<-|He]; [cbn; apply N.eqb_neq in Z; lia|]. apply H. right; assumption.
+  - destruct He as [<-|He]; [apply H; left; reflexivity|].
+    apply IH; auto. intros e' He'. apply H. right; assumption.
+Qed.
+
+Lemma fwd_get_decr k k' l : NoDup (keys_of l) ->
+  fwd_get k (fwd_decr k' l) = fwd_get k l - (if key_eqb k k' then 1 else 0).
+Proof.
+  induction l as [|[k2 n] t IH]; cbn [fwd_decr fwd_get keys_of map fst]; intros H.
+  - destruct (key_eqb k k'); reflexivity.
+  - inversion H as [|? ? Hn Ht]; subst.
+    destruct (key_eqb k' k2) eqn:E2.
+    + apply key_eqb_eq in E2. subst k2.
+      destruct (n - 1 =? 0) eqn:Z; cbn [fwd_get].
+      * apply N.eqb_eq in Z. destruct (key_eqb k k') eqn:E.
+        -- apply key_eqb_eq in E. subst. rewrite fwd_get_notin by assumption. lia.
+        -- lia.
+      * destruct (key_eqb k k'); lia.
+    + cbn [fwd_get]. destruct (key_eqb k k2) eqn:E3.
+      * assert (key_eqb k k' = false).
+        { apply key_eqb_neq. intros ->. apply key_eqb_eq in E3. subst. rewrite key_eqb_refl in E2. discriminate. }
+        rewrite H0. lia.
+      * apply IH. assumption.
+Qed.
+
+Lemma fold_decr_spec ks : forall l, NoDup (keys_of l) -> NoDup ks ->
+  let l' := fold_left (fun f k => fwd_decr k f) ks l in
+  NoDup (keys_of l') /\
+  ((forall e, In e l -> 0 < snd e) -> forall e, In e l' -> 0 < snd e) /\
+  forall k, fwd_get k l' = fwd_get k l - (if mem k ks then 1 else 0).
+Proof.
+  induction ks as [|k0 t IH]; intros l Hl Hk; cbn [fold_left mem].
+  - repeat split; auto. intros k. lia.
+  - inversion Hk as [|? ? Hn Ht]; subst.
+    destruct (IH (fwd_decr k0 l) (nodup_decr k0 l Hl) Ht) as (H1 & H2 & H3).
+    repeat split; auto.
+    + intros Hp. apply H2. apply pos_decr. exact Hp.
+    + intros k. rewrite H3, fwd_get_decr by assumption.
+      destruct (key_eqb k k0) eqn:E; cbn [orb].
+      * apply key_eqb_eq in E. subst.
+        assert (mem k0 t = false).
+        { destruct (mem k0 t) eqn:M; [|reflexivity]. apply mem_In in M. contradiction. }
+        rewrite H. lia.
+      * destruct (mem k t); lia.
+Qed.
+
+(* ------------------------------------------------------------------ *)
+(** * The reverse index *)
+
+Definition holders (k : key) (rv : list (N * list key)) : N :=
+  N.of_nat (length (filter (fun e => mem k (snd e)) rv)).
+
+Lemma rev_get_add t t' k l :
+  rev_get t (rev_add t' k l) = if t =? t' then rev_get t l ++ [k] else rev_get t l.
+Proof.
+  induction l as [|[t2 ks] r IH]; cbn [rev_add rev_get].
+  - destruct (t =? t'); reflexivity.
+  - destruct (t' =? t2) eqn:E2; cbn [rev_get].
+    + apply N.eqb_eq in E2. subst t2. destruct (t =? t'); reflexivity.
+    + destruct (t =? t2) eqn:E3.
+      * apply N.eqb_eq in E3. subst t2.
+        assert ((t =? t') = false) by (rewrite N.eqb_sym; exact E2). rewrite H. reflexivity.
+      * apply IH.
+Qed.
+
+Lemma holders_add k' tok k l :
+  holders k' (rev_add tok k l) =
+  holders k' l + (if key_eqb k' k && negb (mem k' (rev_get tok l)) then 1 else 0).
+Proof.
+  unfold holders. induction l as [|[t2 ks] r IH]; cbn [rev_add rev_get filter snd length mem].
+  - rewrite orb_false_r. cbn [negb]. rewrite andb_true_r. destruct (key_eqb k' k); cbn; lia.
+  - destruct (tok =? t2) eqn:E; cbn [filter snd].
+    + rewrite mem_app. cbn [mem]. rewrite orb_false_r.
+      destruct (mem k' ks); cbn [orb negb length]; [rewrite andb_false_r; lia|].
+      rewrite andb_true_r. destruct (key_eqb k' k); cbn [length]; lia.
+    + destruct (mem k' ks); cbn [length]; lia.
+Qed.
+
+Lemma holders_ge1 k tok l : mem k (rev_get tok l) = true -> 1 <= holders k l.
+Proof.
+  unfold holders. induction l as [|[t2 ks] r IH]; cbn [rev_get filter snd mem]; [discriminate|].
+  destruct (tok =? t2).
+  - intros ->. cbn [length]. lia.
+  - intros H. specialize (IH H). destruct (mem k ks); cbn [length]; lia.
+Qed.
+
+Lemma holders_remove k tok l :
+  holders k (rev_remove tok l) = holders k l - (if mem k (rev_get tok l) then 1 else 0).
+Proof.
+  induction l as [|[t2 ks] r IH]; cbn [rev_remove rev_get]; [reflexivity|].
+  destruct (tok =? t2) eqn:E.
+  - unfold holders. cbn [filter snd]. destruct (mem k ks); cbn [length]; lia.
+  - pose proof (holders_ge1 k tok r) as G.
+    unfold holders in *. cbn [filter snd]. destruct (mem k ks); cbn [length]; [|exact IH].
+    destruct (mem k (rev_get tok r)); [specialize (G eq_refl)|]; lia.
+Qed.
+
+Definition toks_of (l : list (N * list key)) : list N := map fst l.
+
+Lemma toks_add tok k l :
+  toks_of (rev_add tok k l) = toks_of l \/ (toks_of (rev_add tok k l) = toks_of l ++ [tok] /\ ~ In tok (toks_of l)).
+Proof.
+  induction l as [|[t2 ks] r IH]; cbn [rev_add toks_of map fst].
+  - right. split; [reflexivity|intros []].
+  - destruct (tok =? t2) eqn:E; cbn [toks_of map fst].
+    + left; reflexivity.
+    + fold (toks_of r) in *. fold (toks_of (rev_add tok k r)) in *.
+      destruct IH as [IH|[IH Hn]].
+      * left. rewrite IH. reflexivity.
+      * right. split; [rewrite IH; reflexivity|]. cbn [In]. intros [H|H]; [|tauto].
+        subst. rewrite N.eqb_refl in E. discriminate.
+Qed.
+
+Lemma toks_remove_incl tok l : forall x, In x (toks_of (rev_remove tok l)) -> In x (toks_of l).
+Proof.
+  induction l as [|[t2 ks] r IH]; cbn [rev_remove toks_of map fst]; [tauto|].
+  intros x. destruct (tok =? t2); cbn [toks_of map fst In]; [tauto|].
+  intros [H|H]; [auto|]. right. apply IH. exact H.
+Qed.
+
+Lemma toks_remove_nodup tok l : NoDup (toks_of l) -> NoDup (toks_of (rev_remove tok l)) /\ ~ In tok (toks_of (rev_remove tok l)).
+Proof.
+  induction l as [|[t2 ks] r IH]; cbn [rev_remove toks_of map fst]; intros H.
+  - split; [constructor|intros []].
+  - inversion H as [|? ? Hn Ht]; subst. destruct (tok =? t2) eqn:E.
+    + apply N.eqb_eq in E. subst. split; assumption.
+    + destruct (IH Ht) as [I1 I2]. cbn [toks_of map fst]. split.
+      * constructor; [|assumption]. intros Hi. apply Hn. eapply toks_remove_incl; eauto.
+      * cbn [In]. intros [Hx|Hx]; [subst; rewrite N.eqb_refl in E; discriminate|tauto].
+Qed.
+
+Lemma rev_get_notin t l : ~ In t (toks_of l) -> rev_get t l = [].
+Proof.
+  induction l as [|[t2 ks] r IH]; cbn [rev_get toks_of map fst In]; [reflexivity|].
+  intros H. destruct (t =? t2) eqn:E; [apply N.eqb_eq in E; subst; tauto|]. apply IH. tauto.
+Qed.
+
+Lemma rev_get_in t l : rev_get t l <> [] -> In t (toks_of l).
+Proof.
+  intros H. destruct (in_dec N.eq_dec t (toks_of l)) as [Hi|Hn]; [assumption|].
+  rewrite rev_get_notin in H by assumption. congruence.
+Qed.
+
+Lemma rev_get_remove t tok l : NoDup (toks_of l) ->
+  rev_get t (rev_remove tok l) = if t =? tok then [] else rev_get t l.
+Proof.
+  induction l as [|[t2 ks] r IH]; cbn [rev_remove rev_get toks_of map fst]; intros H.
+  - destruct (t =? tok); reflexivity.
+  - inversion H as [|? ? Hn Ht]; subst. fold (toks_of r) in *.
+    destruct (tok =? t2) eqn:E.
+    + apply N.eqb_eq in E. subst t2. destruct (t =? tok) eqn:E2.
+      * apply N.eqb_eq in E2. subst. apply rev_get_notin. assumption.
+      * reflexivity.
+    + cbn [rev_get]. destruct (t =? t2) eqn:E3.
+      * apply N.eqb_eq in E3. subst t2.
+        assert ((t =? tok) = false) by (rewrite N.eqb_sym; exact E). rewrite H0. reflexivity.
+      * apply IH. assumption.
+Qed.
+
+(* ------------------------------------------------------------------ *)
+(** * The refinement invariant of the two maps *)
+
+Record sm_ok (s : sm) : Prop := mk_sm_ok {
+  ok_nodup : NoDup (keys_of (fwd s));
+  ok_pos : forall e, In e (fwd s) -> 0 < snd e;
+  ok_count : forall k, fwd_get k (fwd s) = holders k (rev s);
+  ok_toks : NoDup (toks_of (rev s));
+  ok_sets : forall t, NoDup (rev_get t (rev s)) }.
+
+Lemma sm_ok_maps s s' : fwd s' = fwd s -> rev s' = rev s -> sm_ok s -> sm_ok s'.
+Proof. intros E1 E2 [A B C D E]. constructor; rewrite ?E1, ?E2; auto. Qed.
+
+Lemma sm_ok_new mx lim : sm_ok (sm_new mx lim).
+Proof.
+  constructor; cbn; auto using NoDup_nil; try (intros e []); try (intros t; constructor).
+Qed.
+
+Lemma sm_ok_clear s : sm_ok (clear_tracking s).
+Proof.
+  constructor; cbn; auto using NoDup_nil; try (intros e []); try (intros t; constructor).
+Qed.
+
+Lemma track_ok s tok k : sm_ok s -> sm_ok (track s tok k).
+Proof.
+  intros [A B C D E]. unfold track. destruct (mem k (rev_get tok (rev s))) eqn:M.
+  - constructor; auto.
+  - constructor; cbn [set_maps fwd rev].
+    + apply nodup_incr; assumption.
+    + apply pos_incr; assumption.
+    + intros k'. rewrite fwd_get_incr, holders_add, C. f_equal.
+      destruct (key_eqb k' k) eqn:K; cbn [andb]; [|reflexivity].
+      apply key_eqb_eq in K. subst. rewrite M. reflexivity.
+    + destruct (toks_add tok k (rev s)) as [T|[T Hn]]; rewrite T; [assumption|].
+      apply NoDup_snoc; assumption.
+    + intros t. rewrite rev_get_add. destruct (t =? tok) eqn:T; [|apply E].
+      apply N.eqb_eq in T. subst. apply NoDup_snoc; [apply E|].
+      intros Hi. apply mem_In in Hi. congruence.
+Qed.
+
+Lemma untrack_ok s tok : sm_ok s -> sm_ok (untrack_all s tok).
+Proof.
+  intros [A B C D E]. unfold untrack_all.
+  destruct (fold_decr_spec (rev_get tok (rev s)) (fwd s) A (E tok)) as (F1 & F2 & F3).
+  constructor; cbn [set_maps fwd rev].
+  - exact F1.
+  - apply F2. exact B.
+  - intros k. rewrite F3, holders_remove, C. reflexivity.
+  - apply toks_remove_nodup. assumption.
+  - intros t. rewrite rev_get_remove by assumption. destruct (t =? tok); [constructor|apply E].
+Qed.
+
+(** no decrement of [untrack_all] ever saturates: every slot the token holds
+    has a positive forward count *)
+Lemma untrack_no_underflow s tok k :
+  sm_ok s -> In k (rev_get tok (rev s)) -> 1 <= fwd_get k (fwd s).
+Proof.
+  intros [A B C D E] H. rewrite C. apply (holders_ge1 k tok). apply mem_In. exact H.
+Qed.
+
+(** idempotence: a connection holds at most one slot per (cluster, ip) *)
+Lemma track_holds s tok k : mem k (rev_get tok (rev (track s tok k))) = true.
+Proof.
+  unfold track. destruct (mem k (rev_get tok (rev s))) eqn:M; [exact M|].
+  cbn [set_maps rev]. rewrite rev_get_add, N.eqb_refl, mem_app. cbn [mem].
+  rewrite key_eqb_refl. apply orb_true_r.
+Qed.
+
+Lemma track_idempotent s tok k : track (track s tok k) tok k = track s tok k.
+Proof. unfold track at 1. rewrite track_holds. reflexivity. Qed.
+
+Lemma track_count s tok k k' :
+  fwd_get k' (fwd (track s tok k)) =
+  fwd_get k' (fwd s) + (if key_eqb k' k && negb (mem k (rev_get tok (rev s))) then 1 else 0).
+Proof.
+  unfold track. destruct (mem k (rev_get tok (rev s))); cbn [negb set_maps fwd].
+  - rewrite andb_false_r. lia.
+  - rewrite andb_true_r. apply fwd_get_incr.
+Qed.
+
+(* ------------------------------------------------------------------ *)
+(** * The invariant of the whole driver state *)
+
+Lemma lmem_In t l : lmem t l = true <-> In t l.
+Proof.
+  unfold lmem. rewrite existsb_exists. split.
+  - intros [x [Hx E]]. apply N.eqb_eq in E. subst. assumption.
+  - intros H. exists t. split; [assumption|apply N.eqb_refl].
+Qed.
+
+Lemma lremove_In x t l : In x (lremove t l) <-> In x l /\ x <> t.
+Proof.
+  unfold lremove. rewrite filter_In, negb_true_iff, N.eqb_neq. tauto.
+Qed.
+
+Lemma lremove_nodup t l : NoDup l -> NoDup (lremove t l).
+Proof. apply NoDup_filter. Qed.
+
+Lemma lremove_length t l : NoDup l -> In t l -> S (length (lremove t l)) = length l.
+Proof.
+  induction l as [|x r IH]; cbn [lremove filter In length]; intros H Hi; [destruct Hi|].
+  inversion H as [|? ? Hn Hr]; subst. destruct (x =? t) eqn:E; cbn [negb].
+  - apply N.eqb_eq in E. subst. f_equal.
+    assert (F : filter (fun x => negb (x =? t)) r = r).
+    { clear -Hn. induction r as [|y r IH]; cbn; [reflexivity|].
+      destruct (y =? t) eqn:E; cbn.
+      - apply N.eqb_eq in E. subst. exfalso. apply Hn. left; reflexivity.
+      - f_equal. apply IH. intros Hi. apply Hn. right; assumption. }
+    fold (lremove t r). unfold lremove. rewrite F. reflexivity.
+  - cbn [length]. f_equal. apply IH; auto. destruct Hi as [->|Hi]; [rewrite N.eqb_refl in E; discriminate|assumption].
+Qed.
+
+Record st_ok (st : state) : Prop := mk_st_ok {
+  so_sm : sm_ok (st_sm st);
+  so_live : NoDup (live st);
+  so_toks : forall t, In t (toks_of (rev (st_sm st))) -> In t (live st);
+  so_nb : nb (st_sm st) = N.of_nat (length (live st));
+  so_max : nb (st_sm st) <= max (st_sm st);
+  so_nopanic : panicked st = false }.
+
+Lemma init_ok : st_ok init.
+Proof.
+  constructor; cbn; auto using NoDup_nil, sm_ok_new; try lia; try (intros t []).
+Qed.
+
+Lemma accept_ok st tok : st_ok st -> st_ok (accept st tok).
+Proof.
+  intros [A B C D E F]. unfold accept.
+  destruct (lmem tok (live st)) eqn:L; [constructor; assumption|].
+  destruct (negb (can_accept (st_sm st))); [constructor; assumption|].
+  unfold check_limits. destruct (max (st_sm st) <=? nb (st_sm st)) eqn:M.
+  - constructor; cbn [st_sm live panicked set_accept fwd rev nb max]; auto.
+    eapply sm_ok_maps; [| |exact A]; reflexivity.
+  - destruct (at_capacity (st_sm st)).
+    + constructor; cbn [st_sm live panicked set_accept fwd rev nb max]; auto.
+      eapply sm_ok_maps; [| |exact A]; reflexivity.
+    + apply N.leb_gt in M. unfold incr. cbn [set_slab nb max].
+      assert (X : (nb (st_sm st) + 1 <=? max (st_sm st)) = true) by (apply N.leb_le; lia).
+      rewrite X. constructor; cbn [st_sm live panicked set_nb set_slab fwd rev nb max]; auto.
+      * eapply sm_ok_maps; [| |exact A]; reflexivity.
+      * apply NoDup_snoc; [assumption|]. intros Hi. apply lmem_In in Hi. congruence.
+      * intros t Ht. apply in_or_app. left. apply C. exact Ht.
+      * rewrite app_length. cbn [length]. lia.
+      * lia.
+Qed.
+
+Lemma toks_after_remove tok l t :
+  NoDup (toks_of l) -> In t (toks_of (rev_remove tok l)) -> In t (toks_of l) /\ t <> tok.
+Proof.
+  intros H Ht. split; [eapply toks_remove_incl; exact Ht|].
+  intros ->. destruct (toks_remove_nodup tok l H) as [_ Hn]. contradiction.
+Qed.
+
+Lemma close_fields st tok s2 :
+  st_ok st -> In tok (live st) ->
+  fwd s2 = fwd (untrack_all (st_sm st) tok) -> rev s2 = rev (untrack_all (st_sm st) tok) ->
+  nb s2 = nb (st_sm st) - 1 -> max s2 = max (st_sm st) ->
+  st_ok (mkSt s2 (lremove tok (live st)) (filler st) (panicked st)).
+Proof.
+  intros [A B C D E F] L E1 E2 E3 E4.
+  assert (Hlen : (0 < length (live st))%nat) by (destruct (live st); [destruct L|cbn; lia]).
+  pose proof (lremove_length tok (live st) B L) as LL.
+  constructor; cbn [st_sm live panicked].
+  - eapply sm_ok_maps; [exact E1|exact E2|]. apply untrack_ok. exact A.
+  - apply lremove_nodup. exact B.
+  - intros t Ht. rewrite E2 in Ht. unfold untrack_all in Ht. cbn [set_maps rev] in Ht.
+    destruct A as [_ _ _ A4 _].
+    destruct (toks_after_remove tok _ t A4 Ht) as [H1 H2].
+    apply lremove_In. split; [apply C; exact H1|exact H2].
+  - rewrite E3. lia.
+  - rewrite E3, E4. lia.
+  - exact F.
+Qed.
+
+Lemma close_ok st tok : st_ok st -> st_ok (close st tok).
+Proof.
+  intros OK. unfold close.
+  destruct (lmem tok (live st)) eqn:L; [|assumption].
+  apply lmem_In in L.
+  assert (Z : (nb (st_sm st) =? 0) = false).
+  { destruct OK as [A B C D E F]. apply N.eqb_neq. destruct (live st); [destruct L|cbn in D; lia]. }
+  unfold decr. cbn [untrack_all set_maps set_slab nb max can_accept]. rewrite Z.
+  match goal with |- context [if ?c then _ else _] => destruct c end;
+    apply close_fields; auto.
+Qed.
+
+Lemma gate_track_ok st tok k ov : st_ok st -> st_ok (gate_track st tok k ov).
+Proof.
+  intros [A B C D E F]. unfold gate_track.
+  destruct (lmem tok (live st)) eqn:L; cbn [negb]; [|constructor; assumption].
+  destruct (at_limit (st_sm st) tok k ov); [constructor; assumption|].
+  apply lmem_In in L.
+  constructor; cbn [st_sm live panicked]; auto.
+  - apply track_ok. assumption.
+  - intros t. unfold track. destruct (mem k (rev_get tok (rev (st_sm st)))); [apply C|].
+    cbn [set_maps rev]. destruct (toks_add tok k (rev (st_sm st))) as [T|[T _]]; rewrite T; [apply C|].
+    rewrite in_app_iff. cbn [In]. intros [H|[<-|[]]]; [apply C; assumption|assumption].
+  - unfold track. destruct (mem k _); assumption.
+  - unfold track. destruct (mem k _); assumption.
+Qed.
+
+Lemma apply_op_ok st o : st_ok st -> st_ok (apply_op st o).
+Proof.
+  intros H. destruct o; cbn [apply_op].
+  - constructor; cbn; auto using NoDup_nil, sm_ok_new; try lia; try (intros t []).
+  - apply accept_ok; assumption.
+  - apply close_ok; assumption.
+  - apply gate_track_ok; assumption.
+  - destruct H as [A B C D E F]. unfold set_limit_op.
+    destruct (n =? 0); constructor; cbn [st_sm live panicked set_limit clear_tracking set_maps fwd rev nb max]; auto.
+    + apply sm_ok_clear.
+    + intros t [].
+    + eapply sm_ok_maps; [| |exact A]; reflexivity.
+  - destruct H as [A B C D E F].
+    constructor; cbn [st_sm live panicked set_slab fwd rev nb max]; auto.
+    eapply sm_ok_maps; [| |exact A]; reflexivity.
+  - destruct H as [A B C D E F].
+    constructor; cbn [st_sm live panicked set_slab fwd rev nb max]; auto.
+    eapply sm_ok_maps; [| |exact A]; reflexivity.
+  - destruct H as [A B C D E F]. unfold check_limits.
+    destruct (max (st_sm st) <=? nb (st_sm st)); [|destruct (at_capacity (st_sm st))];
+      constructor; cbn [fst st_sm live panicked set_accept fwd rev nb max]; auto;
+      (eapply sm_ok_maps; [| |exact A]; reflexivity).
+Qed.
+
+Lemma run_ops_ok : forall ops st, st_ok st -> st_ok (run_ops st ops).
+Proof.
+  unfold run_ops. induction ops as [|o t IH]; intros st H; cbn [fold_left]; [assumption|].
+  apply IH. apply apply_op_ok. assumption.
+Qed.
+
+(** baseline: nobody live, nothing retained *)
+Lemma baseline_lemma st : st_ok st -> live st = [] -> fwd (st_sm st) = [] /\ rev (st_sm st) = [].
+Proof.
+  intros [A B C D E F] L.
+  assert (R : rev (st_sm st) = []).
+  { destruct (rev (st_sm st)) as [|[t ks] r] eqn:ER; [reflexivity|].
+    exfalso. specialize (C t). rewrite L in C. apply C. left; reflexivity. }
+  split; [|exact R].
+  destruct A as [A1 A2 A3 A4 A5].
+  destruct (fwd (st_sm st)) as [|[k n] r] eqn:EF; [reflexivity|].
+  exfalso. specialize (A3 k). rewrite R in A3. cbn [fwd_get] in A3. rewrite key_eqb_refl in A3.
+  specialize (A2 (k, n) (or_introl eq_refl)). cbn in A2, A3. lia.
+Qed.
+
+(* ------------------------------------------------------------------ *)
+(** * Admission *)
+
+Lemma decr_resumes s s' :
+  decr s = Some s' -> nb s' < resume_threshold (max s') -> can_accept s' = true.
+Proof.
+  unfold decr. destruct (nb s =? 0); [discriminate|].
+  intros E. inversion E as [E']. clear E. cbn [set_nb can_accept nb max].
+  destruct (can_accept s) eqn:CA; cbn [negb andb set_nb can_accept nb max].
+  - intros _. exact CA.
+  - destruct (nb s - 1 <? resume_threshold (max s)) eqn:T; cbn [set_accept set_nb can_accept nb max].
+    + intros _. reflexivity.
+    + intros H. apply N.ltb_ge in T. lia.
+Qed.
+
+Lemma resume_threshold_pos mx : 1 <= resume_threshold mx.
+Proof. unfold resume_threshold. lia. Qed.
+
+Lemma at_limit_sound s tok k ov :
+  at_limit s tok k ov = false ->
+  let lim := match ov with Some v => v | None => limit s end in
+  lim = 0 \/ mem k (rev_get tok (rev s)) = true \/ fwd_get k (fwd s) < lim.
+Proof.
+  unfold at_limit. cbn zeta. destruct (_ =? 0) eqn:Z; [apply N.eqb_eq in Z; auto|].
+  destruct (mem k (rev_get tok (rev s))); [auto|].
+  intros H. apply N.leb_gt in H. auto.
+Qed.
+
+(** the per-IP bound as an invariant of histories that keep the limit *)
+Definition op_plain (o : op) : Prop :=
+  match o with
+  | OSetLimit _ | ONew _ _ | OTrack _ _ (Some _) => False
+  | _ => True
+  end.
+
+Definition cap_ok (L : N) (st : state) : Prop :=
+  limit (st_sm st) = L /\ (0 < L -> forall k, fwd_get k (fwd (st_sm st)) <= L).
+
+Lemma cap_step L st o : st_ok st -> op_plain o -> cap_ok L st -> cap_ok L (apply_op st o).
+Proof.
+  intros OK P [HL HC]. destruct o; cbn [apply_op op_plain] in *; try tauto.
+  - (* accept *) unfold accept.
+    destruct (lmem tok (live st)); [split; assumption|].
+    destruct (negb (can_accept (st_sm st))); [split; assumption|].
+    unfold check_limits. destruct (max (st_sm st) <=? nb (st_sm st)); [split; assumption|].
+    destruct (at_capacity (st_sm st)); [split; assumption|].
+    unfold incr. cbn [set_slab nb max]. destruct (_ <=? _); split; assumption.
+  - (* close *) unfold close. destruct (lmem tok (live st)); [|split; assumption].
+    unfold decr. cbn [untrack_all set_maps set_slab nb max can_accept].
+    destruct (nb (st_sm st) =? 0); [split; assumption|].
+    destruct OK as [A _ _ _ _ _]. destruct A as [A1 A2 A3 A4 A5].
+    destruct (fold_decr_spec (rev_get tok (rev (st_sm st))) (fwd (st_sm st)) A1 (A5 tok)) as (_ & _ & F3).
+    match goal with |- context [if ?c then _ else _] => destruct c end;
+      (split; cbn [st_sm set_accept set_nb limit fwd]; [assumption|]);
+      intros Hp k0; rewrite F3; specialize (HC Hp k0); lia.
+  - (* track, no override *) destruct ov; [tauto|]. unfold gate_track.
+    destruct (lmem tok (live st)); cbn [negb]; [|split; assumption].
+    destruct (at_limit (st_sm st) tok k None) eqn:AL; [split; assumption|].
+    split; cbn [st_sm]; [unfold track; destruct (mem k _); assumption|].
+    intros Hp k'. rewrite track_count.
+    destruct (key_eqb k' k) eqn:K; cbn [andb]; [|specialize (HC Hp k'); lia].
+    apply key_eqb_eq in K. subst k'.
+    apply at_limit_sound in AL. cbn zeta in AL. rewrite HL in AL.
+    destruct AL as [Z|[M|Lt]]; [lia| |].
+    + rewrite M. cbn [negb]. specialize (HC Hp k). lia.
+    + destruct (mem k _); cbn [negb]; lia.
+  - split; cbn [st_sm set_slab limit fwd]; assumption.
+  - split; cbn [st_sm set_slab limit fwd]; assumption.
+  - unfold check_limits. destruct (_ <=? _); [|destruct (at_capacity _)];
+      split; cbn [fst st_sm set_accept limit fwd]; assumption.
+Qed.
